@@ -139,7 +139,9 @@ def extract(repo: Path) -> dict:
         'should_change = aborted != bool(abort_reason)',
         'return (should_change, abort_reason)',
     ]
-    if tail != expected_tail:
+    # the same first-match search written as a generator expression
+    alt_tail = ['abort_reason = next((reason for condition, reason in conditions if condition(upload)), None)'] + expected_tail[2:]
+    if tail != expected_tail and tail != alt_tail:
         raise TranslateError(f'_evaluate_aborted_state: statements after the predicates not understood: {tail!r}')
     out['conditions'] = conds
 
